@@ -415,6 +415,8 @@ fn c16_parse_multiplicative() {
 }
 
 
+// NOT RUN (kept for the record): even for N = 1 this harness did not finish in 900 s -- parse_unary recurses into
+// itself (real code, fallible), which re-opens the error/drop-glue paths the operand stubs avoid.
 /// Unary level: a run of N prefix operators out of {'!', '~', '-'} in front of an operand must produce exactly that
 /// nest of LogicalNot / BitwiseNot / Negate nodes, outermost first, over an operand taken from the primary level -- in
 /// particular `!!x` is two nodes (GNU ld: `!!x` == (x != 0)).  One harness per N (the recursion depth is then concrete).
